@@ -51,6 +51,9 @@ ASSUMPTIONS = [
     'which positions of a chemical tuple have group data is read from the chemicals (Chemical.UNIFAC/.Dortmund/.NIST), never '
     'from the model object; the object is validated against it (model-object-inconsistent:*), an exception raised by the real '
     'object is an oracle failure (raises:*), and an object whose arrays are inconsistent is not executed in-process',
+    'after every evaluation the adapter changes the returned array(s) in place (as a caller doing `gamma *= x` would) and keeps '
+    'them alive; later results must not share memory with them, and re-evaluating the same object, an ideal model of the same size '
+    'and the object of the reversed tuple must be unaffected (result-shared-between-calls, sibling-object)',
     'each case clears the classes\' `_cached` instance dictionaries first (harness-level reset so that a case is a self-contained history)',
     'GCEOS activity/fugacity classes and IdealGasPoyintingCorrectionFactors are outside the property text and not modelled',
 ]
@@ -281,6 +284,12 @@ def args_changed(G, snap):
     return any(a.shape != b.shape or not np.array_equal(a, b) for a, b in zip(now, snap))
 
 
+# every array the real code has returned in this process (kept alive, so addresses are never reused):
+# a later result that shares memory with one of them is not a fresh array
+import collections
+_RESULTS = collections.deque(maxlen=96)       # (array object, contents it must still have)
+
+
 def same_bits(a, b):
     a = np.asarray(a, float); b = np.asarray(b, float)
     return a.shape == b.shape and a.tobytes() == b.tobytes()
@@ -290,6 +299,7 @@ class Session:
     """real objects of one case + the oracle"""
     def __init__(self):
         self.G = None; self.kind = None; self.names = (); self.snap = None
+        self.siblings = {}        # (kind, names) -> object of the class for the reversed tuple
         self.grouped = ()         # positions with group data, from the chemicals (never from the object)
         self.is_group = False     # the object is a group-contribution object
         self.usable = True        # its arrays are consistent enough to run the kernels in this process
@@ -315,6 +325,109 @@ class Session:
             self.fail(f'raises:{label}:{type(e).__name__}',
                       f'{type(self.G).__name__}{self.names}: {what} raised {type(e).__name__}: {str(e)[:200]}', i)
             return False, None
+
+    # -- results are fresh arrays: evaluate - mutate the result in place - evaluate again ------------------
+    def check_fresh(self, i, label, res, what):
+        """`res` was just returned by the real code: it must not be (part of) an array returned earlier, the
+        caller's arrays, or the object's own tables; nothing returned earlier may have changed meanwhile."""
+        if not isinstance(res, np.ndarray): return
+        for old, snap in _RESULTS:
+            if old is res or np.may_share_memory(old, res):
+                self.fail(f'result-shared-between-calls:{label}',
+                          f'{type(self.G).__name__}{self.names}: the array returned by {what} is (shares memory with) an array '
+                          f'returned by an earlier evaluation; after the caller changed that one in place it reads {np.asarray(res).tolist()}', i)
+                break
+        for a in self.arrays:
+            if a is res or np.may_share_memory(a, res):
+                self.fail(f'result-aliases-x:{label}', 'the returned array shares memory with one of the caller\'s arrays', i)
+        if self.is_group and self.usable:
+            for k in ARG_SLOTS + ('_group_psis',):
+                a = getattr(self.G, k, None)
+                if isinstance(a, np.ndarray) and np.may_share_memory(a, res):
+                    self.fail(f'result-aliases-args:{label}', f'the returned array shares memory with Gamma.{k}', i)
+
+    def earlier_results_intact(self, i, label, what):
+        for old, snap in _RESULTS:
+            if not np.array_equal(old, snap):
+                self.fail(f'result-shared-between-calls:{label}',
+                          f'{type(self.G).__name__}{self.names}: an array returned by an earlier evaluation changed from {snap.tolist()} to '
+                          f'{old.tolist()} during {what}', i)
+                snap[...] = old
+
+    def scribble(self, i, label, res):
+        """what a caller may do with its own result (`gamma *= x`): change it in place.  Nothing that existed
+        before may change."""
+        if not isinstance(res, np.ndarray) or not res.flags.writeable or any(o is res for o, _ in _RESULTS):
+            if isinstance(res, np.ndarray) and res.flags.writeable and res.size:
+                res *= 0.75; res += 0.125
+                for o, snap in _RESULTS:
+                    if o is res: snap[...] = res
+            return
+        callers = [a.copy() for a in self.arrays]
+        try:
+            res *= 0.75; res += 0.125
+        except Exception:
+            return
+        for a, c in zip(self.arrays, callers):
+            if not same_bits(a, c):
+                self.fail(f'result-aliases-x:{label}', 'changing the returned array in place changed one of the caller\'s arrays', i)
+        for o, snap in _RESULTS:
+            if not np.array_equal(o, snap):
+                self.fail(f'result-shared-between-calls:{label}',
+                          'changing the returned array in place changed an array returned by an earlier evaluation', i)
+                snap[...] = o
+        if self.is_group and self.usable and args_changed(self.G, self.snap):
+            self.fail(f'result-aliases-args:{label}', 'changing the returned array in place changed an array of Gamma.args', i)
+            self.snap = snapshot_args(self.G)
+        _RESULTS.append((res, res.copy()))
+
+    def after_scribble(self, i, label, g, before, T):
+        """the caller has modified the arrays it got back; the next evaluations -- of this object, of the ideal
+        model and of another object of the same class, same size -- must not notice"""
+        G = self.G
+        ok, again = self.guarded(i, label, 'Gamma(x, T) after the caller modified an earlier result', lambda: G(before.tolist(), T))
+        if ok:
+            self.check_fresh(i, label, again, 'the next Gamma(x, T)')
+            if not same_bits(np.asarray(again, float) * np.ones(len(g)), g):
+                self.fail(f'result-shared-between-calls:{label}',
+                          f'{type(G).__name__}{self.names}: after the caller modified the returned array in place, the same (x, T) '
+                          f'gives {np.asarray(again).tolist()} instead of {g.tolist()}', i)
+            self.scribble(i, label, again)
+        chems = tuple(POOL[n] for n in self.names)
+        ok, I = self.guarded(i, 'I(ideal)', 'IdealActivityCoefficients(chemicals)', lambda: eq.IdealActivityCoefficients(chems))
+        if ok:
+            ok, r = self.guarded(i, 'I(ideal)', 'an ideal model of the same size', lambda: I(before.tolist(), T))
+            if ok:
+                self.check_fresh(i, 'I(ideal)', r, 'an ideal model of the same size')
+                if not np.all(np.asarray(r, float) == 1.0) or np.size(r) != len(g):
+                    self.fail('result-shared-between-calls:I(ideal)',
+                              f'IdealActivityCoefficients{self.names}(x, T) gives {np.asarray(r).tolist()} after the caller modified in '
+                              f'place an array returned by an earlier evaluation', i)
+                self.scribble(i, 'I(ideal)', r)
+        if len(self.names) > 1 and self.usable and self.kind != 'I':
+            rev = tuple(reversed(chems))
+            sk = (self.kind, self.names)
+            if sk not in self.siblings:
+                with warnings.catch_warnings():
+                    warnings.simplefilter('ignore')
+                    ok, S = self.guarded(i, label, 'a second object of the class (reversed tuple)', lambda: CLASSES[self.kind](rev))
+                self.siblings[sk] = (S,) + validate_object(self.kind, S, CLASSES[self.kind], rev, grouped_positions(self.kind, rev)) if ok else None
+            ent = self.siblings[sk]
+            ok = ent is not None
+            if ok:
+                S, problems, usable = ent
+                x = before[::-1].tolist()
+                safe = usable and not problems and not (float(before[list(self.grouped)].sum()) == 0.0 if self.grouped else False)
+                if safe:
+                    ok, r = self.guarded(i, label, 'a second object of the class (reversed tuple)', lambda: S(x, T))
+                    if ok:
+                        self.check_fresh(i, label, r, 'another object of the class')
+                        r1 = np.asarray(r, float).ravel()
+                        if len(r1) != len(g) or not all(core.close(a, b, rtol=1e-9, atol=0.0) for a, b in zip(r1[::-1], g)):
+                            self.fail(f'sibling-object:{label}',
+                                      f'{type(G).__name__}: the object for the reversed tuple gives {r1[::-1].tolist()} (by name) where '
+                                      f'{self.names} gives {g.tolist()}, x={before.tolist()} T={T}', i)
+                        self.scribble(i, label, r)
 
     # -- one evaluation through the real object ---------------------------------
     def evaluate(self, i, form, arg, T, line, record=True):
@@ -346,6 +459,8 @@ class Session:
             return None
         after = np.array(arg, float, copy=True)
         # ---- oracle on this evaluation
+        self.check_fresh(i, label, res, 'Gamma(x, T)' if form == 'call' else 'Gamma.f(x, T, *args)')
+        self.earlier_results_intact(i, label, 'an evaluation')
         if not same_bits(before, after):
             self.fail(f'x-modified:{label}/{form}/{"nd" if isinstance(arg, np.ndarray) else "seq"}',
                       f'{type(G).__name__}{self.names}: the caller\'s composition was {before.tolist()} before the call and '
@@ -387,12 +502,14 @@ class Session:
             # the functional form and the object form are the same function
             ok, other = self.guarded(i, label, 'the other calling form',
                                      (lambda: G.f(np.array(before), T, *G.args)) if form == 'call' else (lambda: G(np.array(before), T)))
+            if ok: self.check_fresh(i, label, other, 'the other calling form')
             if ok and not same_bits(other, g):
                 self.fail(f'f-form:{label}',
                           f'{type(G).__name__}{self.names} x={before.tolist()} T={T}: Gamma(x,T)={g.tolist() if form == "call" else np.asarray(other).tolist()} '
                           f'but Gamma.f(x,T,*args)={np.asarray(other).tolist() if form == "call" else g.tolist()}', i)
             # same input, same answer (no hidden state), and the object's tables are not written
             ok, again = self.guarded(i, label, 'a repeated Gamma(x, T)', lambda: G(before.tolist(), T))
+            if ok: self.check_fresh(i, label, again, 'a repeated Gamma(x, T)')
             if ok and not same_bits(again, g):
                 self.fail(f'history:{label}',
                           f'{type(G).__name__}{self.names}: the same (x, T) evaluated again gives {np.asarray(again).tolist()} after {g.tolist()}', i)
@@ -402,8 +519,10 @@ class Session:
         else:
             ok, other = self.guarded(i, label, 'the other calling form',
                                      (lambda: G.f(np.array(before), T, *G.args)) if form == 'call' else (lambda: G(np.array(before), T)))
+            if ok: self.check_fresh(i, label, other, 'the other calling form')
             if ok and not np.all(np.asarray(other, float) == g):
                 self.fail(f'f-form:{label}', f'ideal object: f gives {other!r}, call gives {g.tolist()}', i)
+            again = None
         # position independence: same named composition, same named coefficients
         key = (kind, frozenset(zip(self.names, before.tolist())), T)
         named = dict(zip(self.names, g.tolist()))
@@ -417,6 +536,10 @@ class Session:
                         self.fail(f'perm:{label}',
                                   f'{type(G).__name__}: gamma[{n}]={v!r} with the chemicals ordered {self.names} but {old[0][n]!r} '
                                   f'ordered {old[1]} (same composition by name, T={T})', i)
+        # the caller now changes, in place, every array it was handed; later evaluations must not notice
+        for r in (res, other, again):
+            if isinstance(r, np.ndarray): self.scribble(i, label, r)
+        self.after_scribble(i, label, g, before, T)
         if record:
             shown = g if not scalar else [float(res)]
             self.emit(line, f'g={csv(shown)} fresh={1 if fresh else 0} x={csv(after)}')
@@ -431,6 +554,7 @@ class Session:
         ok, res = self.guarded(i, label, 'Gamma.activity_coefficients(x, T)', lambda: G.activity_coefficients(x, T))
         if not ok:
             self.emit(line, 'raised'); return None
+        self.check_fresh(i, label, res, 'Gamma.activity_coefficients(x, T)')
         g = np.array(res, float, copy=True).ravel()
         if not same_bits(before, x):
             self.fail(f'x-modified:{label}', f'{type(G).__name__}{self.names}.activity_coefficients changed x from {before.tolist()} to {x.tolist()}', i)
@@ -444,6 +568,16 @@ class Session:
             self.fail(f'args-modified:{label}', f'{type(G).__name__}{self.names}: an array of Gamma.args (other than group_psis) was written', i)
             self.snap = snapshot_args(G)
         self.group_evals += 1
+        self.scribble(i, label, res)
+        ok, again = self.guarded(i, label, 'activity_coefficients after the caller modified an earlier result',
+                                 lambda: G.activity_coefficients(before.copy(), T))
+        if ok:
+            self.check_fresh(i, label, again, 'the next activity_coefficients(x, T)')
+            if not same_bits(again, g):
+                self.fail(f'result-shared-between-calls:{label}',
+                          f'{type(G).__name__}{self.names}.activity_coefficients: after the caller modified the returned array in place, '
+                          f'the same (x, T) gives {np.asarray(again).tolist()} instead of {g.tolist()}', i)
+            self.scribble(i, label, again)
         self.emit(line, f'g={csv(g)} fresh=1 x={csv(x)}')
         return g
 
